@@ -2,5 +2,4 @@ package main
 
 import "encoding/json"
 
-func runWS(idx int, raw json.RawMessage, seed int64) map[string]any    { return map[string]any{} }
 func runDrain(idx int, raw json.RawMessage, seed int64) map[string]any { return map[string]any{} }
